@@ -3,7 +3,8 @@ from . import crypt_grid as K, xai
 from .report import AnalysisBroken
 
 # results assembled in a scratch buffer whose abstract content is blurred by length ranges: cleanliness not decidable here
-CLEAN_UNDECIDED = {"K$7$": "scrypt result is assembled in intbuf->outbuf with range-length copies; byte sets keep the buffer's previous content"}
+CLEAN_UNDECIDED = {"K$7$": "scrypt result is assembled in intbuf->outbuf with range-length copies; byte sets keep the buffer's previous content",
+                   "K$y$": "yescrypt result is assembled in intbuf->outbuf with range-length copies; byte sets keep the buffer's previous content (decided for generated settings by X-GEN-SHAPE)"}
 HARD = {"W", "R", "NULL", "IDX", "ABORT", "FIELD", "UAF", "FREE", "CALL", "UNINIT"}
 SOFT = {"MODEL", "BUDGET"}
 OUT = 384
@@ -21,6 +22,8 @@ SHAPE = {
     "K$5$": {"digest": 43, "min": 3 + 0 + 1 + 43, "max": 3 + 17 + 16 + 1 + 43},
     "K$6$": {"digest": 86, "min": 3 + 0 + 1 + 86, "max": 3 + 17 + 16 + 1 + 86},
     "K$7$": {"digest": 43, "min": None, "max": None, "digest_undecided": "scrypt result is assembled with range-length copies; provenance positions are blurred"},
+    # $y$<flavor,N,r: 1..6 chars each>[<have><p><t><g><NROM>]$<salt: 0..86 chars>$<43>
+    "K$y$": {"digest": 43, "min": None, "max": None, "digest_undecided": "yescrypt result is assembled with range-length copies; provenance positions are blurred (decided for generated settings by X-GEN-SHAPE)"},
     "K$md5": {"digest": 22, "min": 4 + 1 + 0 + 1 + 22, "max": None},  # $md5[,rounds=N]$salt$[$]digest ; salt of any length is hashed and echoed
     # crypt.5's regex for sha1crypt asks for 40..96 trailing characters; HMAC-SHA1 (20 bytes, 21 encoded) gives 28
     "K$sha1": {"digest": 28, "min": 6 + 1 + 1 + 0 + 1 + 28, "max": 6 + 10 + 1 + 64 + 1 + 28, "slack": 10,
